@@ -38,7 +38,12 @@ def dict_attrs_of_init(m, cname):
         if not isinstance(n, ast.Assign):
             continue
         v = n.value
+        # any growable container created empty: a mapping, or a set / list /
+        # deque (a set of (transport, ...) tuples is a per-client table too)
         is_map = (isinstance(v, ast.Dict) and not v.keys) or (
+            isinstance(v, (ast.List, ast.Set)) and not v.elts) or (
+            isinstance(v, ast.Call) and not v.args and
+            U(v.func).split('.')[-1] in ('set', 'list', 'deque')) or (
             isinstance(v, ast.Call) and U(v.func).split('.')[-1] in (
                 'dict', 'defaultdict', 'OrderedDict', 'WeakValueDictionary'))
         if is_map:
@@ -122,6 +127,18 @@ def released(run, p, table_txt, key_txt, extra_absent=()):
             if U(x.func.value) == table_txt and x.args and \
                     U(x.args[0]) == key_txt:
                 return 'pop'
+            # composite key (client id, ...): accepted when it is executed on
+            # the path at all - a path that skips it (e.g. the loop around
+            # it runs zero times) is not a release
+            if U(x.func.value) == table_txt and x.args and \
+                    isinstance(x.args[0], ast.Tuple) and any(
+                        U(el) == key_txt for el in x.args[0].elts):
+                return 'pop-composite'
+        if e.kind == 'store' and U(e.expr) == table_txt and \
+                isinstance(e.extra, (ast.SetComp, ast.ListComp, ast.DictComp)) \
+                and any(isinstance(n, ast.Name) and n.id.split('\xa7')[0] ==
+                        key_txt for n in ast.walk(e.extra)):
+            return 'filter'
         if e.kind == 'store' and U(e.expr) == table_txt and \
                 isinstance(e.extra, ast.Dict) and not e.extra.keys:
             return 'reset'
